@@ -1,4 +1,5 @@
 import RawPanelVerif.Spec.TopologySpec
+import RawPanelVerif.Spec.SvgBaseSpec
 /-!
 # C15 — the composite panel SVG contains exactly the visible components, correctly placed
 
@@ -9,14 +10,23 @@ The base document enters as an independent judgement made with `encoding/xml`: t
 token, `S` = start element) and whether the tokenizer reached the end of input without an error.  A base is *valid*
 (`baseOk`) when it tokenizes to the end and contains an element.
 
-Clauses of `checkSVG`
+Clauses of `checkSVG` (the clauses about what is ADDED are evaluated first, the observations last, so that a known
+finding about the base part never hides another failure in the same record)
 * `bad-base-not-empty`  an unparsable base SVG (does not tokenize, or no element) must give the empty result (`none`)
 * `nil-for-valid-base`  a valid base must give a document
-* `base-content`, `wellformed`, `printed-tail`  **observations of the implementation** (`Observed`, reported by the
-  harness): the base's own children and root attributes are unchanged in the tree (`kept`); the `encoding/xml` token
-  stream of the base is, in order, part of the token stream of the printed document, compact and pretty (`kept2`);
-  the printed documents re-parse, have one root and no duplicate attribute names (`wellformed`); the printed
-  documents end with the printed appended elements followed by the root's text and end tag (`tail`)
+* `valid-base-rejected:encoding|version|entity`  the empty result for a document that is valid XML although the default
+  `encoding/xml` decoder rejects it (`rej`, the harness's judgement: it tokenizes to the end and has an element once the
+  decoder is given a reader for the declared 8-bit encoding / reads version 1.1 as 1.0 / knows the entities the
+  internal DTD subset declares)
+* `printed-tail`, `wellformed` / `not-wellformed:duplicate-attribute`, `base-content` / `base-content:comment` /
+  `base-content:mixed-text` / `base-content:ns-prefix` / `base-content:pi`  **observations of the implementation**
+  (`Observed`, reported by the harness): the printed documents end with the printed appended elements followed by the
+  root's text and end tag (`tail`); the printed documents re-parse, have one root and no duplicate attribute names
+  (`wellformed`); the base's own children and root attributes are unchanged in the tree (`kept`; always plain
+  `base-content`); the `encoding/xml` token stream of the base is, in order, part of the token stream of the printed
+  document, compact and pretty (`kept2` = `SvgBase.keepsContent`).  The suffix after the colon names the feature of the
+  BASE document (`SvgBase.features`, computed from its token stream) under which the failure is a known finding; a
+  failure on a base without such a feature keeps the plain name.
 * `wf-names`, `wf-printed` (`appendedOk`)  every appended element is well-formed as printed: its name is `rect`, `circle`
   or `text`, its attribute names are XML names and pairwise distinct, and the printed text is
   `<name a1="v1" … />` or `<name a1="v1" …>content</name>` where every `vi` is an XML `AttValue` body and `content`
@@ -294,20 +304,26 @@ structure Observed where
   tail : Bool        -- the printed documents end with the printed appended elements, the root's text and end tag
 deriving Repr, DecidableEq
 
-def observedOk (ob : Observed) : Option String :=
-  if !(ob.kept && ob.kept2) then some "base-content"
-  else if !ob.wellformed then some "wellformed"
-  else if !ob.tail then some "printed-tail"
+/-- the observed clauses; `f` (the features of the base document) only chooses the NAME of a failing clause -/
+def observedOk (f : SvgBase.Features) (ob : Observed) : Option String :=
+  if !ob.tail then some "printed-tail"
+  else if !ob.wellformed then some (SvgBase.wellformedClause f)
+  else if !ob.kept then some "base-content"
+  else if !ob.kept2 then some (SvgBase.contentClause f)
   else none
 
+/-- `ts` = the token stream of the base (`kinds` = its kinds); `rej` = `some class` when the base is a valid document
+that the default decoder rejects (then `endOk = false`) -/
 def checkSVG (fmt : Str → Str) (o : SvgOpts) (t : Topology) (mask : Option (List (Nat × Nat))) (kinds : Str) (endOk : Bool)
-    (out : Option (List (SvgNode × Str))) (ob : Observed) : Option String :=
+    (ts : List Xml.Tok) (rej : Option String) (out : Option (List (SvgNode × Str))) (ob : Observed) : Option String :=
   match out with
-  | none => if baseOk kinds endOk then some "nil-for-valid-base" else none
+  | none =>
+    if baseOk kinds endOk then some "nil-for-valid-base"
+    else rej.map (fun c => "valid-base-rejected:" ++ c)
   | some nodes =>
-    if !baseOk kinds endOk then some "bad-base-not-empty"
-    else match observedOk ob with
+    if !baseOk kinds endOk then (if rej.isSome then checkAppended fmt o t mask nodes else some "bad-base-not-empty")
+    else match checkAppended fmt o t mask nodes with
       | some e => some e
-      | none => checkAppended fmt o t mask nodes
+      | none => observedOk (SvgBase.features ts) ob
 
 end RawPanelVerif.Spec.Svg
